@@ -497,7 +497,7 @@ func findAnchorStmt(fset *token.FileSet, fd *ast.FuncDecl, anchor string) ast.St
 			return true
 		}
 		switch st.(type) {
-		case *ast.AssignStmt, *ast.ExprStmt, *ast.ReturnStmt, *ast.IncDecStmt, *ast.DeclStmt, *ast.DeferStmt, *ast.GoStmt:
+		case *ast.AssignStmt, *ast.ExprStmt, *ast.ReturnStmt, *ast.IncDecStmt, *ast.DeclStmt, *ast.DeferStmt, *ast.GoStmt, *ast.BranchStmt:
 			a, b := fset.Position(st.Pos()).Offset, fset.Position(st.End()).Offset
 			// the smallest statement containing the anchor; among equals the first
 			if a >= 0 && b <= len(data) && strings.Contains(string(data[a:b]), anchor) && (best < 0 || b-a < best) {
